@@ -27,8 +27,10 @@ vars == <<cm, win, model, t, granted, rnd, acquired>>
 LP == [kind |-> MKind, W |-> 2, B |-> MB, S |-> <<1, 2>>, Theta0 |-> One,
        K |-> 2, WTol |-> <<2, 1>>, Allow |-> FALSE, Stale |-> FALSE, Sharp |-> FALSE]
 
-Trunc(s) == IF WSize = 0 \/ Len(s) <= WSize THEN s ELSE SubSeq(s, Len(s) - WSize + 1, Len(s))
-RndCell == [vgt : BOOLEAN, leb : BOOLEAN, geb : BOOLEAN]
+TruncW(s, w) == IF w = 0 \/ Len(s) <= w THEN s ELSE SubSeq(s, Len(s) - w + 1, Len(s))
+Trunc(s) == TruncW(s, WSize)
+\* (only the Boolean "utility >= 1 - budget" of StreamRandomSampling is ever consulted)
+RndCell == [vgt : {FALSE}, leb : {FALSE}, geb : BOOLEAN]
 
 \* one cycle for parameters P from committed state st: [d, st2]
 Cycle(P, st, r) ==
